@@ -58,6 +58,6 @@ def judge(case, impl, model, spec, ctx):
     # a scripted failure must tear the tunnel down (never a clean end)
     if res[0] == 0 and model is not None and untok(model.split()[0])[0] != 0:
         out.append(("violation", "the tunnel reported a clean end although a failure was injected"))
-    if not out and model is not None and impl != model:
+    if not out and model is not None and " ".join(impl.split()[:3]) != model:
         out.append(("disagree", "outcome / counters differ from the timed model"))
     return out
